@@ -772,6 +772,28 @@ class Exec:
         if isinstance(it, ast.Name) and isinstance(p.env.get(it.id), SetV) and p.env[it.id].kkind == 'int' and val_expr is None \
                 and valvar is None and not gen.ifs:
             return self.names_of_levels(e, p, key_expr, var, p.env[it.id])
+        if (isinstance(it, ast.Call) and isinstance(it.func, ast.Attribute) and it.func.attr == 'items' and not it.args
+                and isinstance(it.func.value, ast.Attribute) and it.func.value.attr == '_ite_table' and valvar is not None
+                and isinstance(key_expr, ast.Name) and key_expr.id == var and isinstance(val_expr, ast.Name) and val_expr.id == valvar):
+            # `{k: v for k, v in self._ite_table.items() if C(k, v)}`: the computed table restricted to the entries that satisfy C
+            mv = self.mgr_of_expr(it.func.value.value, p)
+            if mv is not None:
+                S = p.mgrs[mv.key]
+                t = Const(f't!flt{next(M._cnt)}', Fork)
+                saved = dict(p.env)
+                sq = getattr(self, 'qmode', None)
+                p.env[var] = TupV([IntV(Fork.l(t)), IntV(Fork.lo(t)), IntV(Fork.hi(t))])
+                p.env[valvar] = IntV(S.cv[t])
+                self.qmode = ([t], [S.ch[t]], S.ch[t])
+                try:
+                    cnd = truth(self.ev(gen.ifs[0], p)) if gen.ifs else BoolVal(True)
+                finally:
+                    self.qmode = sq
+                    p.env.clear(); p.env.update(saved)
+                has = fresh('flt_has', ArraySort(Fork, B))
+                p.pc.append(ForAll([t], has[t] == And(S.ch[t], cnd), patterns=[has[t]]))
+                self.assumed_builtins.add('dict comprehension filtering the computed table = the table restricted to the entries that satisfy the condition')
+                return DictV(has, S.cv, 'int', 'fork')
         if isinstance(it, ast.Call) and isinstance(it.func, ast.Attribute) and it.func.attr == 'items' and not it.args:
             src = self.ev(it.func.value, p)
             if not (isinstance(src, DictV) and src.kkind == 'name') or valvar is None:
@@ -1741,6 +1763,9 @@ class Exec:
                     return
                 if tgt.attr == '_reordering_context':
                     S.ctx = truth(val)
+                    return
+                if tgt.attr == '_ite_table' and isinstance(val, DictV) and val.kkind == 'fork' and not getattr(val, 'fresh_empty', False):
+                    S.ch, S.cv = val.has, val.val       # a table computed from the old one (e.g. a filtering comprehension)
                     return
                 if tgt.attr == '_ite_table' and isinstance(val, DictV):
                     S.ch = K(Fork, BoolVal(False))
